@@ -56,10 +56,13 @@ class AxolotlReceivelayer(AxolotlBaseLayer):
         if node.getChild("enc")["v"] == "2" and node["from"] not in self.v2Jids:
             self.v2Jids.append(node["from"])
         try:
+            # next to a skmsg the pairwise part only carries the sender key: it is consumed here, the
+            # message itself is delivered once, from the skmsg
+            forward = encMessageProtocolEntity.getEnc(EncProtocolEntity.TYPE_SKMSG) is None
             if encMessageProtocolEntity.getEnc(EncProtocolEntity.TYPE_PKMSG):
-                self.handlePreKeyWhisperMessage(node)
+                self.handlePreKeyWhisperMessage(node, forward)
             elif encMessageProtocolEntity.getEnc(EncProtocolEntity.TYPE_MSG):
-                self.handleWhisperMessage(node)
+                self.handleWhisperMessage(node, forward)
             if encMessageProtocolEntity.getEnc(EncProtocolEntity.TYPE_SKMSG):
                 self.handleSenderKeyMessage(node)
 
@@ -96,7 +99,7 @@ class AxolotlReceivelayer(AxolotlBaseLayer):
             else:
                 logger.error("Ignoring message with untrusted identity")
 
-    def handlePreKeyWhisperMessage(self, node):
+    def handlePreKeyWhisperMessage(self, node, forward=True):
         pkMessageProtocolEntity = EncryptedMessageProtocolEntity.fromProtocolTreeNode(node)
         enc = pkMessageProtocolEntity.getEnc(EncProtocolEntity.TYPE_PKMSG)
         plaintext = self.manager.decrypt_pkmsg(pkMessageProtocolEntity.getAuthor(False), enc.getData(),
@@ -105,12 +108,15 @@ class AxolotlReceivelayer(AxolotlBaseLayer):
         if enc.getVersion() == 2:
             self.parseAndHandleMessageProto(pkMessageProtocolEntity, plaintext)
 
+        if not forward:
+            return
+
         node = pkMessageProtocolEntity.toProtocolTreeNode()
         node.addChild((ProtoProtocolEntity(plaintext, enc.getMediaType())).toProtocolTreeNode())
 
         self.toUpper(node)
 
-    def handleWhisperMessage(self, node):
+    def handleWhisperMessage(self, node, forward=True):
         encMessageProtocolEntity = EncryptedMessageProtocolEntity.fromProtocolTreeNode(node)
 
         enc = encMessageProtocolEntity.getEnc(EncProtocolEntity.TYPE_MSG)
@@ -119,6 +125,9 @@ class AxolotlReceivelayer(AxolotlBaseLayer):
 
         if enc.getVersion() == 2:
             self.parseAndHandleMessageProto(encMessageProtocolEntity, plaintext)
+
+        if not forward:
+            return
 
         node = encMessageProtocolEntity.toProtocolTreeNode()
         node.addChild((ProtoProtocolEntity(plaintext, enc.getMediaType())).toProtocolTreeNode())
